@@ -8,6 +8,7 @@ import (
 
 	"github.com/Trisia/randomness/detect"
 
+	"verif/checks/c18"
 	"verif/common"
 	"verif/model"
 	"verif/wf"
@@ -168,9 +169,28 @@ func Run(ctx *common.Ctx) int {
 			distinct.Add(fmt.Sprint(1000, fam, t))
 		}
 	}
+	// ---------- the uniformity statistic next to concurrent users of the shared incomplete-gamma code ----------
+	// (the parallel workflows evaluate ThresholdQ while workers are still inside chi-square tests of other shapes)
+	concExecs, concStates := 0, 0
+	if m, info, err := c18.PairsOf(ctx, []string{"ThresholdQ", "Igamc(1,.)", "Igamc(7.5,.)", "runner02", "runner05"}); err != nil {
+		ctx.Note("concurrent part skipped: the library cannot be instrumented (%v)", err)
+	} else {
+		for _, res := range m.Results {
+			if res.Found != nil {
+				ctx.Report("concurrent/"+res.Task.Name, res.Found.Violation, map[string]interface{}{"task": res.Task.Name, "choices": res.Found.Choices})
+			}
+		}
+		for _, e := range m.ToolErrors {
+			ctx.Note("tool error (not a violation): %s", e)
+		}
+		concExecs, concStates = m.Execs, len(m.States)
+		samples = append(samples, map[string]interface{}{"family": "concurrent", "cases": "all ordered pairs (and triples) of {ThresholdQ, Igamc(1,.), Igamc(7.5,.), poker runner, runs-distribution runner} under the controlled scheduler, <= 2 preemptions at synchronisation operations and package-level state", "schedules": m.Execs, "synchronisation_constructs_found": info.Counts})
+	}
 	cov := common.Coverage{
-		"evaluations":         int(evals),
-		"distinct_nontrivial": distinct.Len() + 1,
+		"evaluations":          int(evals) + concExecs,
+		"concurrent_schedules": concExecs,
+		"concurrent_states":    concStates,
+		"distinct_nontrivial":  distinct.Len() + 1,
 		"rule": "Threshold: the whole domain s=1..10^6 against an exact integer predicate; ThresholdQ: every ordered list of length 1..3 over a 39-value alphabet (0, 1, mid-bins, the floats below/at/above every edge 0.1..0.9), every partition of 20 and 50 into <=10 bin counts in three arrangements and several orders, two one-parameter families of length 1000; " +
 			"oracle: exact rational chi-square and 320-bit Q(9/2, .), tolerance 1e-12; order independence bit-for-bit; distinct = distinct bin-count multisets",
 		"samples":    samples,
